@@ -11,21 +11,22 @@ wrapped dimensions): wrapped coordinates when overflow wraps, the coordinate its
 in-range integer otherwise when overflow is undefined, the point itself if in range when overflow is
 impossible; the guard `cs_p` is applied to the image.  `Dom` is the interface the template
 `Implementation::wrap_assign<PSET>` (src/wrap_assign.hh) is written against, with one soundness
-hypothesis per member function; `wrapAssign d cfg P` transliterates `wrap_assign`, `wrap_assign_ind`,
-`wrap_assign_col` as written.
+hypothesis per member function; `wrapAssignG fix d cfg P` transliterates `wrap_assign`, `wrap_assign_ind`,
+`wrap_assign_col`.
 
-* The code as written violates the clause when collective wrapping becomes too complex at a variable
-  (`collective_wrap_too_complex` is set while processing `x`; the dimensions already recorded get the full
-  range, but `x` itself is neither recorded nor given the full range): `wrap_sound_fails` (concrete
-  witness on rational boxes), `wrap_sound_partial` (every run in which that branch is not executed —
-  the ghost flag `wrapTrips`), `wrap_sound_individually_partial`, `wrap_sound_notWraps_partial`
-  (no run of these classes executes it), and `wrap_sound_repaired` (full strength for the repaired code
-  `wrapAssignFixed`, which sends `x` to `set_full_range`).
+* `wrap_sound` is stated for `wrapAssign`, the code with the repair of KF-C17-3 (`goto set_full_range` for
+  the variable at which collective wrapping becomes too complex; fixes/fix_c17_wrap_collective_too_complex.diff).
+  The variant before the repair (`wrapAssignBeforeFix`: that variable is neither recorded nor given the
+  full range) is kept as a named historical witness: `wrap_sound_before_fix_fails` (concrete witness on
+  rational boxes), `wrap_sound_before_fix_partial` (every run in which the branch is not executed — ghost
+  flag `wrapTrips`), `…_individually_partial`, `…_notWraps_partial`.  Which variant the library implements
+  is measured by the check on every run: the symbolic traces of the real template equal one of the two.
 * `Interval::wrap_assign` (hence `Box::wrap_assign`): `interval_wrap_sound` for the code (the comparison
   `u >= lower()` since the fix of defect 12 in /repo, 7a40b81); `interval_wrap_defect12_before_fix`
   (`[0,256]` to unsigned 8 bits gave `{0}`) and `interval_wrap_sound_before_fix_partial` document the repaired defect.
-* `Box::wrap_assign` without guard: `box_wrap_sound_partial` / `_fails` (`Z_Box`, overflow undefined, upper
-  boundary `max + 1`).
+* `Box::wrap_assign` without guard: `box_wrap_sound` for the code with the repair of KF-C17-10;
+  `box_wrap_sound_before_fix_partial` / `_fails` (`Z_Box`, overflow undefined, upper boundary `max + 1`) for
+  the variant before it; the check measures the variant.
 * `drop_sound`: the clause the harness judges `drop_some_non_integer_points` with, and the two
   tightening steps of `Polyhedron::drop_some_non_integer_points` satisfy it.
 * `containsIntegerPointRef_sound`: the reference for `contains_integer_point()`.
@@ -41,46 +42,13 @@ abbrev _root_.PPLV.Wrap.Dom.γs (d : Dom) (P : d.D) : Set Pt := {v | d.γ P v}
 
 /-! ## the generic algorithm -/
 
-/-- **wrap_sound, code as written, every run that does not execute the unrepaired branch**: for every
-abstract domain, width, signedness, overflow mode, guard, threshold, individual/collective wrapping,
-every wrapped image of an integer point of the argument lies in the concretisation of the result.
-Missing for full strength: the runs with `wrapTrips d cfg P = true` (see `wrap_sound_fails`). -/
-theorem wrap_sound_partial (d : Dom) (P : d.D) (cfg : WrapCfg) (v : Pt) (hv : v ∈ d.γs P)
-    (_hint : ∀ i ∈ cfg.vars, isInt (v i)) (htrip : wrapTrips d cfg P = false) :
-    ∀ v' ∈ Spec.wrapImages cfg v, v' ∈ d.γs (wrapAssign d cfg P) :=
-  fun _ hv' => wrapAssignG_sound hv' false P hv htrip
-
-/-- individual wrapping never executes the unrepaired branch -/
-theorem wrap_sound_individually_partial (d : Dom) (P : d.D) (cfg : WrapCfg) (v : Pt)
-    (hv : v ∈ d.γs P) (hint : ∀ i ∈ cfg.vars, isInt (v i)) (hind : cfg.individually = true) :
-    ∀ v' ∈ Spec.wrapImages cfg v, v' ∈ d.γs (wrapAssign d cfg P) := by
-  apply wrap_sound_partial d P cfg v hv hint
-  unfold wrapTrips wrapAssignG
-  simp only []
-  split
-  · rfl
-  · split
-    · rfl
-    · simp only []; rw [foldl_tripped_ind false hind]; rfl
-
-/-- `OVERFLOW_UNDEFINED` and `OVERFLOW_IMPOSSIBLE` never execute the unrepaired branch -/
-theorem wrap_sound_notWraps_partial (d : Dom) (P : d.D) (cfg : WrapCfg) (v : Pt)
-    (hv : v ∈ d.γs P) (hint : ∀ i ∈ cfg.vars, isInt (v i)) (ho : cfg.o ≠ .wraps) :
-    ∀ v' ∈ Spec.wrapImages cfg v, v' ∈ d.γs (wrapAssign d cfg P) := by
-  apply wrap_sound_partial d P cfg v hv hint
-  unfold wrapTrips wrapAssignG
-  simp only []
-  split
-  · rfl
-  · split
-    · rfl
-    · simp only []; rw [foldl_tripped_notWraps false ho]; rfl
-
-/-- **wrap_sound for the repaired code**, at full strength (the statement of Appendix B with
-`wrapAssignFixed` in place of `wrapAssign`). -/
-theorem wrap_sound_repaired (d : Dom) (P : d.D) (cfg : WrapCfg) (v : Pt) (hv : v ∈ d.γs P)
+/-- **wrap_sound** (Appendix B): for every abstract domain, width, signedness, overflow mode, guard,
+threshold, individual/collective wrapping, every wrapped image of an integer point of the argument lies
+in the concretisation of the result.  `wrapAssign` is the code with the repair of KF-C17-3; the check
+measures on every run (symbolic traces of the real template) whether the library is this variant. -/
+theorem wrap_sound (d : Dom) (P : d.D) (cfg : WrapCfg) (v : Pt) (hv : v ∈ d.γs P)
     (_hint : ∀ i ∈ cfg.vars, isInt (v i)) :
-    ∀ v' ∈ Spec.wrapImages cfg v, v' ∈ d.γs (wrapAssignFixed d cfg P) := by
+    ∀ v' ∈ Spec.wrapImages cfg v, v' ∈ d.γs (wrapAssign d cfg P) := by
   intro v' hv'
   apply wrapAssignG_sound hv' true P hv
   unfold wrapAssignG
@@ -90,6 +58,39 @@ theorem wrap_sound_repaired (d : Dom) (P : d.D) (cfg : WrapCfg) (v : Pt) (hv : v
   · split
     · rfl
     · simp only []; rw [foldl_tripped_fix]; rfl
+
+/-- the variant before the repair, every run that does not execute the unrepaired branch (the ghost
+flag `wrapTrips`).  Missing for full strength: the runs of `wrap_sound_before_fix_fails`. -/
+theorem wrap_sound_before_fix_partial (d : Dom) (P : d.D) (cfg : WrapCfg) (v : Pt) (hv : v ∈ d.γs P)
+    (_hint : ∀ i ∈ cfg.vars, isInt (v i)) (htrip : wrapTrips d cfg P = false) :
+    ∀ v' ∈ Spec.wrapImages cfg v, v' ∈ d.γs (wrapAssignBeforeFix d cfg P) :=
+  fun _ hv' => wrapAssignG_sound hv' false P hv htrip
+
+/-- before the repair: individual wrapping never executes the unrepaired branch -/
+theorem wrap_sound_before_fix_individually_partial (d : Dom) (P : d.D) (cfg : WrapCfg) (v : Pt)
+    (hv : v ∈ d.γs P) (hint : ∀ i ∈ cfg.vars, isInt (v i)) (hind : cfg.individually = true) :
+    ∀ v' ∈ Spec.wrapImages cfg v, v' ∈ d.γs (wrapAssignBeforeFix d cfg P) := by
+  apply wrap_sound_before_fix_partial d P cfg v hv hint
+  unfold wrapTrips wrapAssignG
+  simp only []
+  split
+  · rfl
+  · split
+    · rfl
+    · simp only []; rw [foldl_tripped_ind false hind]; rfl
+
+/-- before the repair: `OVERFLOW_UNDEFINED` and `OVERFLOW_IMPOSSIBLE` never execute the unrepaired branch -/
+theorem wrap_sound_before_fix_notWraps_partial (d : Dom) (P : d.D) (cfg : WrapCfg) (v : Pt)
+    (hv : v ∈ d.γs P) (hint : ∀ i ∈ cfg.vars, isInt (v i)) (ho : cfg.o ≠ .wraps) :
+    ∀ v' ∈ Spec.wrapImages cfg v, v' ∈ d.γs (wrapAssignBeforeFix d cfg P) := by
+  apply wrap_sound_before_fix_partial d P cfg v hv hint
+  unfold wrapTrips wrapAssignG
+  simp only []
+  split
+  · rfl
+  · split
+    · rfl
+    · simp only []; rw [foldl_tripped_notWraps false ho]; rfl
 
 namespace Witness
 open PPLV.Wrap.BoxDom
@@ -102,7 +103,7 @@ def v : Pt := fun i => if i = 1 then 300 else 0
 def v' : Pt := fun i => if i = 1 then 44 else 0
 
 theorem v_mem : gamma P v := by decide +kernel
-theorem img_not_mem : ¬ gamma (wrapAssign boxDom cfg P) v' := by decide +kernel
+theorem img_not_mem : ¬ gamma (wrapAssignBeforeFix boxDom cfg P) v' := by decide +kernel
 theorem trips : wrapTrips boxDom cfg P = true := by decide +kernel
 
 theorem img_is_image : PPLV.Wrap.Spec.WrapImage cfg v v' := by
@@ -120,12 +121,13 @@ theorem img_is_image : PPLV.Wrap.Spec.WrapImage cfg v v' := by
 
 end Witness
 
-/-- **wrap_sound fails for the code as written**: `A ∈ [0,600]`, `B ∈ [300,1000]` wrapped collectively
-to unsigned 8 bits with threshold 4 keeps `B ∈ [300,1000]`; the point `(0,300)` wraps to `(0,44)`,
-which is lost.  (The real library returns exactly this on `C_Polyhedron`: replay `p4` of the harness.) -/
-theorem wrap_sound_fails :
+/-- **KF-C17-3, the historical witness**: before the repair, `A ∈ [0,600]`, `B ∈ [300,1000]` wrapped
+collectively to unsigned 8 bits with threshold 4 keeps `B ∈ [300,1000]`; the point `(0,300)` wraps to
+`(0,44)`, which is lost.  (A library without the repair returns exactly this on `C_Polyhedron`: case `p4`
+of the harness; the check then reports KF-C17-3 and `kf3_measured = true`.) -/
+theorem wrap_sound_before_fix_fails :
     ¬ ∀ (d : Dom) (P : d.D) (cfg : WrapCfg) (v : Pt), v ∈ d.γs P → (∀ i ∈ cfg.vars, isInt (v i)) →
-      ∀ v' ∈ Spec.wrapImages cfg v, v' ∈ d.γs (wrapAssign d cfg P) := by
+      ∀ v' ∈ Spec.wrapImages cfg v, v' ∈ d.γs (wrapAssignBeforeFix d cfg P) := by
   intro h
   have := h BoxDom.boxDom Witness.P Witness.cfg Witness.v Witness.v_mem ?_ Witness.v' Witness.img_is_image
   · exact Witness.img_not_mem this
@@ -135,18 +137,18 @@ theorem wrap_sound_fails :
     · exact ⟨0, by simp [Witness.v]⟩
     · exact ⟨300, by simp [Witness.v]⟩
 
-/-- non-vacuity: the repaired code keeps the image that the code as written loses, and the theorems
+/-- non-vacuity: the repaired code keeps the image that the code before the repair loses, and the theorems
 apply to a concrete domain (every hypothesis field of `Dom` is proved for rational boxes) -/
-example : Witness.v' ∈ BoxDom.boxDom.γs (wrapAssignFixed BoxDom.boxDom Witness.cfg Witness.P) :=
-  wrap_sound_repaired BoxDom.boxDom Witness.P Witness.cfg Witness.v Witness.v_mem
+example : Witness.v' ∈ BoxDom.boxDom.γs (wrapAssign BoxDom.boxDom Witness.cfg Witness.P) :=
+  wrap_sound BoxDom.boxDom Witness.P Witness.cfg Witness.v Witness.v_mem
     (by intro i hi
         simp only [Witness.cfg, List.mem_cons, List.mem_nil_iff, or_false] at hi
         rcases hi with rfl | rfl
         · exact ⟨0, by simp [Witness.v]⟩
         · exact ⟨300, by simp [Witness.v]⟩) Witness.v' Witness.img_is_image
 
-example : Witness.v' ∈ BoxDom.boxDom.γs (wrapAssign BoxDom.boxDom { Witness.cfg with individually := true } Witness.P) := by
-  apply wrap_sound_individually_partial BoxDom.boxDom Witness.P _ Witness.v Witness.v_mem _ rfl
+example : Witness.v' ∈ BoxDom.boxDom.γs (wrapAssignBeforeFix BoxDom.boxDom { Witness.cfg with individually := true } Witness.P) := by
+  apply wrap_sound_before_fix_individually_partial BoxDom.boxDom Witness.P _ Witness.v Witness.v_mem _ rfl
   · exact Witness.img_is_image
   · intro i hi
     simp only [Witness.cfg, List.mem_cons, List.mem_nil_iff, or_false] at hi
@@ -206,24 +208,31 @@ example : (ivWrap false ⟨some (200, false), some (300, false)⟩ 8 .unsigned (
 
 /-! ## `Box::wrap_assign` (branch without guard) -/
 
-/-- the clause for a box: `boxWrap strictTest storeOpen cfg B` transliterates the three loops of the
-`cs_p == nullptr` branch of `Box::wrap_assign` on a non-empty box `B` (`strictTest = false`: the code);
-`storeOpen` says whether the interval type can store open boundaries -/
-def BoxWrapSound (strictTest storeOpen : Bool) (cfg : WrapCfg) (B : List Itv) : Prop :=
-  ∀ v v' : Pt, boxMem B v → v' ∈ Spec.wrapImages cfg v → boxMem (boxWrap strictTest storeOpen cfg B) v'
+/-- the clause for a box: `boxWrap strictTest storeOpen kf10 cfg B` transliterates the three loops of the
+`cs_p == nullptr` branch of `Box::wrap_assign` on a non-empty box `B` (`strictTest = false`: the interval
+comparison of the code); `storeOpen` says whether the interval type can store open boundaries; `kf10 = false`
+is the quadrant test with the repair of KF-C17-10 (fixes/fix_c17_box_wrap_undefined_closed_bounds.diff),
+`kf10 = true` the test before it.  The check measures on every run which variant the library implements. -/
+def BoxWrapSound (strictTest storeOpen kf10 : Bool) (cfg : WrapCfg) (B : List Itv) : Prop :=
+  ∀ v v' : Pt, boxMem B v → v' ∈ Spec.wrapImages cfg v → boxMem (boxWrap strictTest storeOpen kf10 cfg B) v'
 
-/-- **Box::wrap_assign is sound** for `OVERFLOW_WRAPS` and `OVERFLOW_IMPOSSIBLE` on every box, and for
-`OVERFLOW_UNDEFINED` when the interval type stores open boundaries (`Rational_Box`).
-Missing for full strength: `OVERFLOW_UNDEFINED` on closed-boundary boxes (`box_wrap_sound_fails`). -/
-theorem box_wrap_sound_partial (storeOpen : Bool) (cfg : WrapCfg) (B : List Itv)
+/-- **box_wrap_sound**: `Box::wrap_assign` (with the repair of KF-C17-10) never loses a wrapped image, for
+every box, interval type, width, signedness and overflow mode -/
+theorem box_wrap_sound (storeOpen : Bool) (cfg : WrapCfg) (B : List Itv) :
+    BoxWrapSound false storeOpen false cfg B :=
+  fun v v' hB himg => boxWrap_sound false storeOpen false cfg B v v' himg (Or.inl rfl) (fun _ => Or.inr rfl) hB
+
+/-- before the repair of KF-C17-10: sound for `OVERFLOW_WRAPS` and `OVERFLOW_IMPOSSIBLE` on every box, and for
+`OVERFLOW_UNDEFINED` when the interval type stores open boundaries (`Rational_Box`) -/
+theorem box_wrap_sound_before_fix_partial (storeOpen : Bool) (cfg : WrapCfg) (B : List Itv)
     (hopen : cfg.o = .undefined → storeOpen = true) :
-    BoxWrapSound false storeOpen cfg B :=
-  fun v v' hB himg => boxWrap_sound false storeOpen cfg B v v' himg (Or.inl rfl) hopen hB
+    BoxWrapSound false storeOpen true cfg B :=
+  fun v v' hB himg => boxWrap_sound false storeOpen true cfg B v v' himg (Or.inl rfl) (fun h => Or.inl (hopen h)) hB
 
-/-- **fails** on `Z_Box` (closed integer boundaries): `[250,256]` to unsigned 8 bits with undefined overflow
-is left alone, although `256` overflows and may become, e.g., `0` -/
-theorem box_wrap_sound_fails :
-    ¬ ∀ (storeOpen : Bool) (cfg : WrapCfg) (B : List Itv), BoxWrapSound false storeOpen cfg B := by
+/-- **KF-C17-10, the historical witness**: before the repair, on `Z_Box` (closed integer boundaries) `[250,256]` to
+unsigned 8 bits with undefined overflow is left alone, although `256` overflows and may become, e.g., `0` -/
+theorem box_wrap_sound_before_fix_fails :
+    ¬ ∀ (storeOpen : Bool) (cfg : WrapCfg) (B : List Itv), BoxWrapSound false storeOpen true cfg B := by
   intro h
   have := h false ⟨[0], 8, .unsigned, .undefined, none, 16, false⟩ [⟨some (250, false), some (256, false)⟩]
     (fun i => if i = 0 then 256 else 0) (fun _ => 0) (by decide +kernel) ?_
@@ -238,7 +247,7 @@ theorem box_wrap_sound_fails :
       exact ⟨256, by simp, Or.inr ⟨by decide, 0, by decide, by simp⟩⟩
     · intro cs hcs; simp at hcs
 
-example : boxMem (boxWrap false true ⟨[0], 8, .unsigned, .undefined, none, 16, false⟩ [⟨some (250, false), some (256, false)⟩])
+example : boxMem (boxWrap false false false ⟨[0], 8, .unsigned, .undefined, none, 16, false⟩ [⟨some (250, false), some (256, false)⟩])
     (fun _ => 0) := by decide +kernel
 
 /-! ## dropping non-integer points -/
